@@ -35,4 +35,150 @@ def batch_call(f: ca.Function, cols, chunk: int = 1024, threads: int = 1):
                 rr, cc = f.size_out(j)
                 a = a.reshape(rr, chunk, cc).transpose(2, 0, 1).reshape(rr * cc, chunk)
             outs[j][:, s:s + n] = a[:, :n]
+    probe_columns(f, cols, outs)
     return outs
+
+
+# --------------------------------------------------------------------------------------
+# numeric-argument ("eager") path
+# --------------------------------------------------------------------------------------
+# Engine A evaluates ca.Functions built ONCE from symbolic arguments.  A user also calls the
+# library with numbers (`G.elem(ca.DM([...]))`): structural shortcuts in the code
+# (`param.is_zero()`, sparsity tests, `is_constant`) fire only on that path.  For a few columns per
+# function -- those with the most exact zeros first -- the builder is re-run with ca.SX.sym replaced
+# by the numeric values and ca.Function replaced by direct evaluation, and the outputs are compared
+# with the symbolic function's.  Only a clean disagreement is recorded: symbolic outputs finite,
+# argument binding verified; anything unusual (symbols created inside the library, non-constant
+# outputs, shapes not understood) skips the probe.
+REG = {}            # id(function) -> (label, builder)
+EAGER = []          # recorded disagreements (drained by Run.finish)
+STATS = {"probes": 0, "skipped": 0}
+_budget = {}
+PROBES_PER_FN = 8
+
+
+def register(f, label, builder):
+    if isinstance(f, tuple) and f and isinstance(f[0], ca.Function):      # builders returning (Function, clause names)
+        f = f[0]
+    if isinstance(f, ca.Function):
+        REG[id(f)] = (label, builder, f)
+
+
+class _Captured(Exception):
+    def __init__(self, outs):
+        self.outs = outs
+
+
+def eager_eval(builder, args):
+    vals = [np.asarray(a, float) for a in args]
+    made = []
+    st = {"i": 0}
+    orig_sym, orig_F = ca.SX.sym, ca.Function
+
+    def fake_sym(name, *shape):
+        if st["i"] < len(vals) and all(isinstance(x, int) for x in shape) and len(shape) <= 2:
+            n = shape[0] if shape else 1
+            m = shape[1] if len(shape) > 1 else 1
+            v = vals[st["i"]]
+            if v.size != n * m:
+                st["i"] = len(vals) + 1      # binding not understood: stop substituting
+                return orig_sym(name, *shape)
+            st["i"] += 1
+            c = ca.SX(ca.DM(v.reshape(n, m, order="F")))
+            made.append(c)
+            return c
+        return orig_sym(name, *shape)
+
+    def fake_F(name, ins=None, outs=None, *a, **k):
+        if ins is not None and outs is not None and len(ins) == len(vals) and len(made) == len(vals) \
+                and all(any(i is c for c in made) for i in ins):
+            raise _Captured((list(ins), list(outs)))
+        return orig_F(name, ins, outs, *a, **k) if ins is not None else orig_F(name)
+    try:
+        ca.SX.sym = staticmethod(fake_sym)
+        ca.Function = fake_F
+        try:
+            builder()
+        except _Captured as c:
+            ins, outs = c.outs
+        else:
+            return None
+    except Exception:       # noqa: the numeric path raising is reported by the caller through None + flag
+        return "raised"
+    finally:
+        ca.SX.sym = orig_sym
+        ca.Function = orig_F
+    try:
+        for i, v in zip(ins, vals):
+            if not np.array_equal(np.array(ca.DM(i)).flatten(order="F"), v.flatten(order="F")):
+                return None
+        return [np.array(ca.evalf(ca.densify(o))).flatten(order="F") for o in outs]
+    except Exception:       # noqa
+        return None
+
+
+def eager_probe(f, args, outs, tol=1e-9):
+    """args: list of 1-D arrays (one evaluation); outs: list of arrays from the symbolic function."""
+    ent = REG.get(id(f))
+    if ent is None:
+        return
+    label, builder, _ = ent
+    if _budget.get(id(f), 0) >= PROBES_PER_FN:
+        return
+    _budget[id(f)] = _budget.get(id(f), 0) + 1
+    sym = [np.asarray(o, float).flatten(order="F") for o in outs]
+    if not all(np.all(np.isfinite(o)) for o in sym):
+        STATS["skipped"] += 1
+        return
+    got = eager_eval(builder, args)
+    if got is None or got == "raised" or len(got) != len(sym):
+        STATS["skipped"] += 1
+        return
+    STATS["probes"] += 1
+    for j, (g, w) in enumerate(zip(got, sym)):
+        if g.shape != w.shape:
+            STATS["skipped"] += 1
+            return
+        with np.errstate(invalid="ignore"):
+            bad = ~(np.abs(g - w) <= tol * max(1.0, float(np.max(np.abs(w))) if w.size else 1.0))
+        if np.any(bad):
+            EAGER.append({"label": label, "out": j, "args": [np.asarray(a, float).tolist() for a in args],
+                          "numeric_path": g.tolist(), "symbolic_path": w.tolist()})
+            return
+
+
+def probe_columns(f, cols, outs):
+    """after a batch evaluation: probe the columns with the most exact zeros (then the first ones)"""
+    if id(f) not in REG or _budget.get(id(f), 0) >= PROBES_PER_FN:
+        return
+    N = cols[0].shape[1]
+    zeros = np.zeros(N)
+    for c in cols:
+        zeros += np.sum(c == 0.0, axis=0)
+    order = list(np.argsort(-zeros, kind="stable")[:PROBES_PER_FN - 2]) + [0, N - 1]
+    seen = set()
+    for k in order:
+        if k in seen:
+            continue
+        seen.add(k)
+        eager_probe(f, [c[:, k] for c in cols], [o[:, k] for o in outs])
+
+
+_budget_z = {}
+
+
+def direct_probe(f, args, outs):
+    """for checks that evaluate one state at a time: a few ordinary calls and more calls whose arguments
+    hold exact zeros (zero rotation, pure translation, identity...) are re-evaluated on the numeric path"""
+    if id(f) not in REG:
+        return
+    a = [np.asarray(x, float).flatten(order="F") for x in args]
+    nz = sum(int(np.sum(x == 0.0)) for x in a)
+    if nz >= 3:
+        if _budget_z.get(id(f), 0) >= 8:
+            return
+        _budget_z[id(f)] = _budget_z.get(id(f), 0) + 1
+        _budget[id(f)] = min(_budget.get(id(f), 0), PROBES_PER_FN - 1)
+    elif _budget.get(id(f), 0) >= 4:
+        return
+    eager_probe(f, a, outs)
